@@ -278,11 +278,17 @@ def judge_setop(ck, cases, results):
             if pos in ('component', 'alternative', 'element-inline'):
                 corr_terms.append('(%s, %s)' % (clist([G.c_constraint(cons)]), ty))
                 corr_idx.append((i, pos))
-    bad = coq_eval_bad('C06', REQ, 'flat * bool * int_ty', 'spec_setop', spec_terms, label='setop_spec')
+    from common import coq_eval_bad_multi
+    bad, mono = coq_eval_bad_multi('C06', REQ, 'flat * bool * int_ty', ['spec_setop', 'fun c => ops_monotone (fst (fst c))'], spec_terms, label='setop_spec')
+    nonmono = set(mono)
     failed = set()
     for j in bad:
         i, pos = spec_idx[j]
         failed.add(i)
+        if j in nonmono and ck.is_known('C06-precedence'):
+            # the operator sequence is not nested as X.680 prescribes (C04-precedence): the folded bound is not the effective one
+            ck.known_hit('C06-precedence', {'asn1': cases[i]['sources'][0].split('\n')[1], 'position': pos})
+            continue
         ck.violation('impl-violation', cases[i]['sources'][0], position=pos, term=spec_terms[j],
                      why='the integer type chosen for a set-operation / parenthesised constraint cannot hold a permitted value or is '
                          'fixed-width although the constraint is extensible or unbounded')
